@@ -5,6 +5,7 @@ import petl as etl
 from hypothesis import strategies as st
 
 from pv import gen, codec
+from pv import catgen
 from pv.core import Sub, Fail, exc_fail, two_iterators
 from pv.ref import base as R, setops as RS
 
@@ -53,6 +54,10 @@ def case(draw, tier):
     c["upstream"] = [draw(st.sampled_from(["none", "none", "none", "asc", "desc"])) for _ in range(2)]
     # read the result through two interleaved iterators over the one view (None: a single pass)
     c["lag"] = draw(st.sampled_from([None, None, 0, 1, 2]))
+    # presorted=True on inputs the harness has sorted (whole rows, reference ordering); with different container forms on
+    # the two sides a list row meets a tuple row in the merge
+    c["presorted"] = op in ("complement", "intersection", "diff", "law") and draw(st.integers(0, 3)) == 0
+    c["forms"] = [draw(st.sampled_from(["lists", "lists", "lists"] + catgen.FORMS)) for _ in range(2)]
     return c
 
 
@@ -76,7 +81,17 @@ def _run(f, *args, **kw):
 
 def check(case, ctx):
     op, a, b, strict = case["op"], case["a"], case["b"], case["strict"]
-    A, B = codec.snapshot(a), codec.snapshot(b)
+    forms = case.get("forms") or ["lists", "lists"]
+    pre = bool(case.get("presorted")) and (case.get("upstream") or ["none", "none"]) == ["none", "none"]
+    pk = {"presorted": True} if pre else {}
+    if pre:
+        ctx.label("presorted")
+        A = catgen.shape([list(r) for r in R.ref_sort(a)], forms[0])
+        B = catgen.shape([list(r) for r in R.ref_sort(b)], forms[1])
+    else:
+        A, B = catgen.shape(codec.snapshot(a), forms[0]), catgen.shape(codec.snapshot(b), forms[1])
+    if forms != ["lists", "lists"]:
+        ctx.label("container-forms")
     ups = case.get("upstream") or ["none", "none"]
     if ups[0] != "none":
         A = etl.sort(A, reverse=ups[0] == "desc")
@@ -104,9 +119,9 @@ def check(case, ctx):
         ctx.label("two-iterators")
     try:
         if op == "complement":
-            return cmp(op, _run(etl.complement, A, B, strict=strict), RS.ref_complement(a, b, strict), seq=False)
+            return cmp(op, _run(etl.complement, A, B, strict=strict, **pk), RS.ref_complement(a, b, strict), seq=False)
         if op == "intersection":
-            return cmp(op, _run(etl.intersection, A, B), RS.ref_intersection(a, b), seq=False)
+            return cmp(op, _run(etl.intersection, A, B, **pk), RS.ref_intersection(a, b), seq=False)
         if op == "hashcomplement":
             return cmp(op, _run(etl.hashcomplement, A, B, strict=strict), RS.ref_complement(a, b, strict, ordered=False))
         if op == "hashintersection":
@@ -114,7 +129,7 @@ def check(case, ctx):
         if op == "recordcomplement":
             return cmp(op, _run(etl.recordcomplement, A, B, strict=strict), RS.ref_complement(a, ba, strict), seq=False)
         if op == "diff":
-            added, subtracted = etl.diff(A, B, strict=strict)
+            added, subtracted = etl.diff(A, B, strict=strict, **pk)
             return (cmp("diff.added", [tuple(r) for r in added], RS.ref_complement(b, a, strict), seq=False)
                     or cmp("diff.subtracted", [tuple(r) for r in subtracted], RS.ref_complement(a, b, strict), seq=False))
         if op == "recorddiff":
@@ -124,8 +139,9 @@ def check(case, ctx):
                     or cmp("recorddiff.subtracted", [tuple(r) for r in subtracted], RS.ref_complement(a, ba, strict), seq=False))
         # law: complement + intersection reassemble a (non-strict), for both implementations
         for cf, inf in ((etl.complement, etl.intersection), (etl.hashcomplement, etl.hashintersection)):
-            c = _run(cf, A, B)
-            i = _run(inf, A, B)
+            lk = pk if cf is etl.complement else {}
+            c = _run(cf, A, B, **lk)
+            i = _run(inf, A, B, **lk)
             if RS.multiset(c[1:]) + RS.multiset(i[1:]) != ca:
                 return Fail("law/%s+%s" % (cf.__name__, inf.__name__), "complement %r + intersection %r != a %r" % (c[1:], i[1:], a[1:]))
         return None
